@@ -46,10 +46,8 @@ fn compositions(items: &[usize]) -> Vec<Vec<Vec<usize>>> {
 }
 
 pub fn band_states(n_paths: usize, thorough: bool) -> Vec<BandState> {
-    let mut v = vec![BandState::Absent];
-    if thorough {
-        v.push(BandState::Headless);
-    }
+    // (a directory without a BANDHEAD is what a backup killed during band creation leaves)
+    let mut v = vec![BandState::Absent, BandState::Headless];
     for mask in 0..(1u32 << n_paths) {
         let items: Vec<usize> = (0..n_paths).filter(|i| mask & (1 << i) != 0).collect();
         for hunks in compositions(&items) {
